@@ -26,11 +26,11 @@ var cmdAlike = map[string]string{"s": "\u017f", "\u017f": "s", "\u03bb\u03bf\u03
 var spot string
 
 var spotlights = map[string][]string{
-	"C01": {"swap-recheck", "other-invoker", "sibling-P", "inv-as-proof", "lookalike", "long-chain", "prov-dlg", "hook-twice", "rootless-after"},
-	"C02": {"self-K", "sibling-K", "alike", "deep", "top-under-one", "long-chain", "reserved", "repeat-cmd", "rawcmd", "widen-back", "bad-utf8", "dup-proof"},
-	"C03": {"uslice", "nullopt", "alias", "twin", "sibling-Q", "hook-null", "optional-and", "starstr", "same-selector", "second-args", "below-element", "hook-completes"},
+	"C01": {"swap-recheck", "other-invoker", "sibling-P", "inv-as-proof", "lookalike", "long-chain", "prov-dlg", "hook-twice", "rootless-after", "long-dev"},
+	"C02": {"self-K", "sibling-K", "alike", "deep", "top-under-one", "long-chain", "reserved", "repeat-cmd", "rawcmd", "widen-back", "bad-utf8", "dup-proof", "seg-wrap"},
+	"C03": {"uslice", "nullopt", "alias", "twin", "sibling-Q", "hook-null", "optional-and", "starstr", "same-selector", "second-args", "below-element", "hook-completes", "long-like", "many-stmts", "long-dev"},
 	"C04": {"far-nbf", "sibling-W", "both-bounds", "unbounded-then-bad", "shared-option", "raw-nbf"},
-	"C05": {"far-exp", "uslice", "prov-inv", "prov-dlg", "hook-twice", "long-chain", "reuse", "starstr", "repeat-cmd", "overlap-args", "churn", "second-args", "below-element", "map-order", "hook-completes"},
+	"C05": {"far-exp", "uslice", "prov-inv", "prov-dlg", "hook-twice", "long-chain", "reuse", "starstr", "repeat-cmd", "overlap-args", "churn", "second-args", "below-element", "map-order", "hook-completes", "many-stmts"},
 	"C07": {"far-exp", "uslice", "nullopt"},
 	"C09": {"inv-as-proof", "long-chain", "deep"},
 	"":    {"swap-recheck", "other-invoker", "self-K", "sibling-K", "uslice", "nullopt", "alias", "twin", "far-nbf", "far-exp", "inv-as-proof", "sibling-W"},
@@ -982,6 +982,12 @@ func genWorld(r *Rand, cfg GenCfg) Plan {
 	if spot == "widen-back" {
 		nLinks = []int{9, 10, 12, 16, 17, 24, 33}[r.Intn(7)]
 	}
+	if spot == "long-dev" {
+		nLinks = []int{17, 18, 20, 33, 34, 40, 49}[r.Intn(7)]
+	}
+	if spot == "many-stmts" {
+		nLinks = []int{1, 3, 10, 12}[r.Intn(4)]
+	}
 	if spot == "rootless-after" {
 		// the top of a size class of small buffers (4, 8, 16, 32), so that the chain without its
 		// root is one shorter in the same class
@@ -1011,15 +1017,20 @@ func genWorld(r *Rand, cfg GenCfg) Plan {
 	}
 	forced := ""
 	switch spot {
-	case "swap-recheck", "other-invoker", "sibling-P", "sibling-K", "sibling-Q", "sibling-W", "prov-dlg", "prov-inv", "hook-twice", "far-exp", "reuse", "rootless-after", "second-args", "churn", "map-order", "hook-completes":
+	case "swap-recheck", "other-invoker", "sibling-P", "sibling-K", "sibling-Q", "sibling-W", "prov-dlg", "prov-inv", "hook-twice", "far-exp", "reuse", "rootless-after", "second-args", "churn", "map-order", "hook-completes", "many-stmts":
 		conform = true
-	case "self-K", "alike", "top-under-one", "reserved", "rawcmd", "widen-back", "bad-utf8", "dup-proof":
+	case "self-K", "alike", "top-under-one", "reserved", "rawcmd", "widen-back", "bad-utf8", "dup-proof", "seg-wrap":
 		conform, forced = false, "K"
 	case "repeat-cmd", "overlap-args", "shared-option":
 		conform = true
 	case "inv-as-proof", "lookalike":
 		conform, forced = false, "P"
-	case "alias", "twin", "hook-null", "optional-and", "same-selector":
+	case "long-dev":
+		conform, forced = false, map[string]string{"C01": "P", "C03": "Q", "C04": "W"}[focus]
+		if forced == "" {
+			forced = "P"
+		}
+	case "alias", "twin", "hook-null", "optional-and", "same-selector", "long-like":
 		conform, forced = false, "Q"
 	case "far-nbf", "both-bounds", "unbounded-then-bad", "raw-nbf":
 		conform, forced = false, "W"
@@ -1029,6 +1040,9 @@ func genWorld(r *Rand, cfg GenCfg) Plan {
 		} else {
 			conform = true
 		}
+	}
+	if spot == "many-stmts" && focus == "C03" {
+		conform, forced = false, "Q" // one false statement among hundreds of true ones
 	}
 	notShipped := map[string]bool{}
 	if !conform {
@@ -1064,6 +1078,32 @@ func genWorld(r *Rand, cfg GenCfg) Plan {
 				g.deviateW(c, tcSec)
 			}
 		}
+	}
+
+	// policies at scale: many statements per link, many links, a quantifier over a long list - all
+	// of them true (for C03: then one false statement is put somewhere by the deviation above)
+	if spot == "many-stmts" && len(c.dlgs) > 0 {
+		per := 100
+		switch {
+		case len(c.dlgs) >= 10:
+			per = Pick(r, []int{7, 30})
+		case len(c.dlgs) >= 3:
+			per = 30
+		}
+		for i := range c.dlgs {
+			for j := 0; j < per; j++ {
+				if st := genStmt(r, c.inv.Args, true, 0, true); st.Op != "nop" {
+					c.dlgs[i].Pol = append(c.dlgs[i].Pol, st)
+				}
+			}
+		}
+		long := make([]Val, 70+r.Intn(200))
+		for i := range long {
+			long[i] = vInt(int64(i % 50))
+		}
+		c.inv.Args = append(c.inv.Args, KV{"longlist", Val{K: "list", L: long}})
+		c.dlgs[0].Pol = append(c.dlgs[0].Pol, Stmt{Op: "all", Sel: ".longlist", Kids: []Stmt{{Op: ">=", Sel: ".", Val: ptr(vInt(0))}}})
+		g.note("many-stmts")
 	}
 
 	// statements over an argument only the executor's hook supplies ("extra"): negated,
@@ -1593,6 +1633,10 @@ func (g *wgen) deviateP(c, foreign *chain, notShipped map[string]bool) {
 		return
 	}
 	k := r.Intn(n)
+	if spot == "long-dev" && n > 16 {
+		// proof index 16, 32, 48 (counted from the leaf): where tables, masks and windows of 16 end
+		k = n - 1 - 16*(1+r.Intn((n-1)/16))
+	}
 	pos := "mid"
 	if k == 0 {
 		pos = "root"
@@ -1600,6 +1644,9 @@ func (g *wgen) deviateP(c, foreign *chain, notShipped map[string]bool) {
 		pos = "leaf"
 	}
 	choice := r.Intn(15)
+	if spot == "long-dev" {
+		choice = r.Intn(5) // the plain principal deviations
+	}
 	switch spot {
 	case "inv-as-proof":
 		choice = 14
@@ -1779,6 +1826,26 @@ func (g *wgen) deviateK(c *chain) {
 		g.note("K:" + kind + "@inv")
 		return
 	}
+	if sp == "seg-wrap" || r.Chance(0.02) {
+		// a grant of 256 or more segments above, and below it a command that shares only its first
+		// (N mod 256) segments with it (for 256 and 512: the top command): far wider, not covered
+		N := Pick(r, []int{256, 257, 300, 512, 255, 260})
+		segs := make([]string, N)
+		for i := range segs {
+			segs[i] = fmt.Sprintf("s%d", i%7)
+		}
+		long := "/" + strings.Join(segs, "/")
+		wide := "/" + strings.Join(segs[:N%256], "/")
+		for i := 0; i < k; i++ {
+			c.dlgs[i].Cmd = long
+		}
+		for i := k; i < n; i++ {
+			c.dlgs[i].Cmd = wide
+		}
+		c.inv.Cmd = strings.TrimSuffix(wide, "/") + "/vault/destroy"
+		g.note(fmt.Sprintf("K:seg-wrap/%d@%d", N, k))
+		return
+	}
 	if n >= 2 && len(c.inv.Prf) == n && (sp == "dup-proof" || r.Chance(0.05)) {
 		// the leaf is named a second time further up the proof list ([leaf, parent, leaf, ...]),
 		// and it is strictly narrower than its parent: the list as it stands widens at the repeated
@@ -1926,6 +1993,16 @@ func (g *wgen) deviateQ(c *chain) {
 				g.note("Q:same-selector")
 			}
 		}
+	}
+	if spot == "long-like" {
+		// a deny-pattern (not like) with a literal after a star, against tens of kilobytes made of
+		// near-matches of that literal with the real match at the very end: however much work
+		// the matcher does, the verdict is "matches", so the negation is false
+		n := Pick(r, []int{600, 2500, 5000})
+		path := strings.Repeat("../../../../x/", n) + "../../../../etc/passwd"
+		c.inv.Args = append(c.inv.Args, KV{"path", vStr(path)})
+		s = Stmt{Op: "not", Kids: []Stmt{{Op: "like", Sel: ".path", Pat: "*../../../../etc/*"}}}
+		g.note("Q:long-like")
 	}
 	if spotWant(r, "twin", 0.2) {
 		// twins: the false statement compares an integer argument with a FLOAT of a value for
